@@ -466,6 +466,25 @@ func genFsCase(r *Rng, family string) *FsCase {
 		world = append(world, Node{Path: "/w/dest", Kind: 'd', Perm: uint32(r.pick2(0o755, 0o2775, 0o700)), Uid: r.pick2(0, 0, 1000), Gid: r.pick2(0, 0, 50), Mtime: 1700})
 		world = append(world, g.genTree("/w/dest", r.intn(9), &mt)...)
 	}
+	// a file of the destination that has a second name outside it (a hard link across the boundary): whatever an
+	// entry does to the inside name, the outside name keeps its object as it was
+	if dest == "/w/dest" && (op == "untar" || op == "layer") && r.chance(1, 4) {
+		maxg := 0
+		for _, n := range world {
+			if n.Group > maxg {
+				maxg = n.Group
+			}
+		}
+		for i := range world {
+			if world[i].Kind == 'r' && strings.HasPrefix(world[i].Path, "/w/dest/") && world[i].Group == 0 {
+				world[i].Group = maxg + 1
+				twin := world[i]
+				twin.Path = "/w/outdir/hl" + fmt.Sprint(r.intn(3))
+				world = append(world, twin)
+				break
+			}
+		}
+	}
 	// de-duplicate paths (later wins is not meaningful here: keep first)
 	seen := map[string]bool{}
 	for _, n := range world {
